@@ -67,7 +67,13 @@ class ImageInterpolator:
                 # See: https://github.com/scipy/scipy/issues/13600
                 self._n_prepad = self.n_prepad_if_needed
                 if self._n_prepad != 0:
-                    data = np.pad(data, self._n_prepad, mode='edge')
+                    if self.mode == 'nearest':
+                        data = np.pad(data, self._n_prepad, mode='edge')
+                    else:
+                        # 'grid-constant': the image is surrounded by the
+                        # fill value, not by copies of its border samples
+                        data = np.pad(data, self._n_prepad, mode='constant',
+                                      constant_values=self.cval)
             kwargs = {'order': self.order}
             kwargs['mode'] = self.mode
             data = spline_filter(data, **kwargs)
